@@ -249,6 +249,11 @@ def replay_tebd(case):
         try:
             if h["op"] == "compute":
                 obj.compute(h["target"], progress_type="silent")
+            elif h["op"] == "peek":
+                dm = obj.get_current_density_matrix((0, 1))
+                lab = obj.step
+                if lab < len(rs) and np.max(np.abs(dm - rs[lab])) > 1e-9 * max(1.0, abs(rn[lab])) and not out:
+                    out.append({"what": "peek-content", "call": idx, "label": lab})
             elif h["op"] == "restart":
                 mps = obj.get_augmented_mps()
                 origin = obj.step
